@@ -120,7 +120,7 @@ Definition expect_ser (es : list eopt) (s : ser) (route : str) (dec : list (Z * 
       | Some mt =>
           match decode dec (p_tid (msg_type mt)) with
           | DBad => VFail
-          | DOk v => expect_call es route c (AVal (p_tid (msg_type mt)) v)
+          | DOk v => expect_call es route c (AVal (p_tid (msg_type mt)) 0 v)
           end
       end
   end.
